@@ -14,6 +14,10 @@ if c.replay:
 # all multisets of competing rows over 1 series x 2 timestamps x 3 versions, every arrival order, every split into
 # batches, every flush/merge state (exhaustive state graph), deeper by simulation
 fams = [
+    # one scenario shape enumerated exhaustively: every pair of batches (competing versions inside a batch and across
+    # the two parts), flushed, then merged by the real merger; query after every step
+    dict(name='two-parts-merged', series=[1], times=[1, 2], versions=[1, 2, 3], versioned=True, maxrows=2, maxtotal=3 if c.quick else 4,
+         maxops=4, graphops=4, sims=0, simops=5, script=['write', 'write', 'flush', 'merge']),
     dict(name='versions-1x2x3', series=[1], times=[1, 2], versions=[1, 2, 3], versioned=True, maxrows=2, maxtotal=4,
          maxops=5 if c.quick else 7, graphops=2 if c.quick else 3, sims=150 if c.quick else 900, simops=10),
     dict(name='versions-2x1x2-ties', series=[1, 2], times=[1], versions=[1, 2], versioned=True, maxrows=3, maxtotal=5,
